@@ -18,6 +18,15 @@ CHECKS = {
         design_ref="DESIGN.md 7/C01",
         note="E1-E6 (fake MySQL semantics), TLC, synctest; weak reading: members count by ground truth dead or alive",
         technique="TLA+ model of the switchover (TLC exhaustive) + trace/row validation of real runs on fakes by TLC"),
+    "C06": dict(
+        category="model_checking",
+        text="Request lifecycle: Switchover.tla (Start/Fail/Finish/Reject, attempt counter, limit) is model-checked with "
+             "C06_SuccessMeansDone / C06_BoundedAttempts; the real stateManager runs 40-round histories on the fakes for "
+             "every request kind x failure variant x limit x timeout, each request identity is digested from the recorded "
+             "trace and TLC judges the eight C06 clauses on it (ReqRows.tla).",
+        design_ref="DESIGN.md 7/C06",
+        note="manager's coordination calls succeed (C07 covers the rest); CLI initiators emulated by create-if-absent writes",
+        technique="TLA+ lifecycle model (TLC) + TLC validation of request histories recorded from real code"),
     "C07": dict(
         category="fault_enumeration",
         text="The managing process is killed, or cut from ZooKeeper, immediately after each external call of a "
